@@ -1094,8 +1094,8 @@ Print Assumptions C02_final_rel_of_decoded_objects.
      - m2 has the timing points of m, and the slider-velocity / kiai / scroll-speed timelines
        agree at every time                                                              (T02d),
      - the hit objects correspond one to one in [final_rel_decoded]              (T02b / T02e).
-   Left out of [final_rel] for sliders: the velocity (a function of data shown equal:
-   C02_slider_velocity_round_trip), file names on nodes (class D31: C02_slider_node_file_name_lost). *)
+   Not in [final_rel]: the slider velocity (C02_round_trip_velocities below, same hypotheses), file
+   names on nodes (class D31: C02_slider_node_file_name_lost). *)
 Theorem C02_round_trip_decoded_map :
   forall lm fmt_f64 fmt_f32 fmt_int,
   fmt_ok fmt_f64 fmt_f32 fmt_int -> no_leading_zero fmt_int -> fmt_f32_int fmt_f32 fmt_int ->
@@ -1168,6 +1168,24 @@ Example C02_example_is_chronological :
   sortedb (map start_key (raw_objects (lines_of_text all_kinds_text))) = true /\
   (forall l, sortedb l = true -> Sorted.StronglySorted Z.le l).
 Proof. exact (conj all_kinds_chronological sortedb_sorted). Qed.
+
+(* the velocities of corresponding sliders agree as well (under the same hypotheses): the velocity
+   of a decoded slider is a closed form over SliderMultiplier, mode, timing points and the
+   slider-velocity timeline at its start time -- all shown equal above -- whatever the two curve
+   functions *)
+Theorem C02_round_trip_velocities :
+  forall lm fmt_f64 fmt_f32 fmt_int,
+  fmt_ok fmt_f64 fmt_f32 fmt_int -> no_leading_zero fmt_int -> fmt_f32_int fmt_f32 fmt_int ->
+  forall events lines m c ls dist2 m2,
+  Forall no_lf_line lines -> decode_beatmap (dist_real lm) lines = Done m -> d23_class m = false ->
+  enc_control_points (dist_real lm) events m = Done c ->
+  rt_classes (g_mode (hov_general (bmv_ho m))) c = true ->
+  objects_classes lm m ->
+  encode_lines (dist_real lm) events m = Done ls ->
+  decode_beatmap dist2 (map (render fmt_f64 fmt_f32 fmt_int) ls) = Done m2 ->
+  Forall2 same_velocity (hov_hit_objects (bmv_ho m)) (hov_hit_objects (bmv_ho m2)).
+Proof. exact round_trip_velocities. Qed.
+Print Assumptions C02_round_trip_velocities.
 
 (* non-vacuity: the hypotheses are satisfiable by a concrete decoded map with a circle, a slider,
    a spinner and a hold (plus a break and an inherited timing line), real curve and slider-event
@@ -1280,11 +1298,10 @@ Proof. exact all_kinds_round_trip. Qed.
      consecutive Catmull / D21 / D30), a computable curve, and "read under the map's mode" (the other
      order on the original input is class D22).  The image premises of the node clause are FACTS
      about every decoded map (C02_decoded_slider_nodes_image), discharged in the top-level theorems
-     ([final_rel_decoded]).  LEFT OPEN: (1) the velocity of the re-read slider is not part of
-     [final_rel]: it is a function of data shown equal (C02_slider_velocity_round_trip needs both
-     maps decoded with the same curve function); (2) the combo offset of a slider is shown to survive
-     only next to the new-combo bit (an offset without the bit cannot be produced by the decoder;
-     not mechanised for sliders).
+     ([final_rel_decoded]).  The velocities of corresponding sliders agree: C02_round_trip_velocities
+     (a separate statement under the same hypotheses).  LEFT OPEN: the combo offset of a slider is
+     shown to survive only next to the new-combo bit (an offset without the bit cannot be produced
+     by the decoder; not mechanised for sliders).
 
    Everything above is also covered by the bit-exact `enc` correspondence (decode + encode model
    against the crate, slider files included) and by the C02 oracle, which compares exactly the
